@@ -311,9 +311,15 @@ def p_expression_4(t):
     '''expression : OFFSET FLAT COLON expression '''
     t[0] = t[4]
 
+def number_to_int32(v):
+    v = int(v)
+    if not -0x80000000 <= v <= 0xFFFFFFFF:
+        raise ValueError('number %d does not fit in 32 bits'%v)
+    return int(int32(uint32(v)))
+
 def p_expression_5(t):
     '''expression : NUMBER'''
-    t[0] = {x86_afs.imm:int(int32(uint32(int(t[1]))))}
+    t[0] = {x86_afs.imm:number_to_int32(t[1])}
 
 def p_expression_6(t):
     '''expression : symbol
@@ -368,14 +374,14 @@ def p_brackets_3(t):
     if not x86_afs.ad in t[3]:
         t[3][x86_afs.ad] = True
     t[0] = t[3]
-    t[0][x86_afs.imm] = int(int32(uint32(int(t[1]))))
+    t[0][x86_afs.imm] = number_to_int32(t[1])
 
 def p_brackets_4(t):
     '''brackets : MINUS NUMBER LBRA expression RBRA'''
     if not x86_afs.ad in t[4]:
         t[4][x86_afs.ad] = True
     t[0] = t[4]
-    t[0][x86_afs.imm] = - int(int32(uint32(int(t[2]))))
+    t[0][x86_afs.imm] = - number_to_int32(t[2])
 
 def p_brackets_5(t):
     '''brackets : NUMBER PLUS symbol LBRA expression RBRA '''
@@ -384,7 +390,7 @@ def p_brackets_5(t):
     t[0] = t[5]
     for f in t[3]:
         t[0][f] = t[3][f]
-    t[0][x86_afs.imm] = int(int32(uint32(int(t[1]))))
+    t[0][x86_afs.imm] = number_to_int32(t[1])
 
 def p_brackets_6(t):
     '''brackets : MINUS NUMBER PLUS symbol LBRA expression RBRA %prec UMINUS'''
@@ -393,7 +399,7 @@ def p_brackets_6(t):
     t[0] = t[6]
     for f in t[4]:
         t[0][f] = t[4][f]
-    t[0][x86_afs.imm] = - int(int32(uint32(int(t[2]))))
+    t[0][x86_afs.imm] = - number_to_int32(t[2])
 
 import ply.yacc as yacc
 import tempfile
